@@ -13,6 +13,15 @@ Part 2 (size-bounded, exact): for every n <= 4, approx_order <= 6 and strategy t
 solved independently in exact rational arithmetic; the returned [coefficients; shifts] array must consist of exactly the columns of
 the exact solution except the (coefficient 0, shift 0) column, ordered by |shift|, each coefficient within 1e-9 * max|c| (normwise error of the float solve); and the exact
 solution satisfies the moment conditions for every k < n + approx_order (exactness on all polynomials of degree < n + approx_order).
+
+Part 3 (history independence; "for EVERY call" of the property): finite_diff_coeffs is memoised (functools.cache) and hands the SAME numpy
+array to every caller, so the property holds for a later call only if no earlier caller wrote into that array.  (a) FRAME obligations
+(vf/frame/npalias.py, a numpy-aware instance of the may-alias analysis of C18): every in-repo function that calls finite_diff_coeffs is
+enumerated from the ASTs on every run; each of its write sites (item / attribute assignment, `x op= v` on a name, in-place methods,
+out= arguments, np.copyto/put/..., callee summaries, nested functions included) must not target the returned array or anything that may
+be a view of it (rows from unpacking, slices, convert_like/asarray/reshape results).  (b) bounded native stand-ins: the real finite_diff,
+spsa_grad (num_directions 1..3) and finite_diff_jvp are run, post-processing included, for every small (n, approx_order, strategy);
+afterwards the memoised finite_diff_coeffs (keyword and positional call form) must still equal the recomputed stencil.
 """
 import importlib
 import math
@@ -20,7 +29,7 @@ from fractions import Fraction
 
 import z3
 
-from vf.common import Plan, Obligation, Outcome, DISCHARGED, REFUTED, FAULT
+from vf.common import Plan, Obligation, Outcome, DISCHARGED, REFUTED, UNDECIDED, FAULT, REPO
 from vf.pyvc.engine import World, T, Int, Model, FloatV, Unsupp, RaiseExc, to_int_term, real_of, is_intlike
 from vf.pyvc.contract import FnContract, Case, obligations_for
 from vf.pyvc import spec as S
@@ -150,6 +159,216 @@ def exact_obligation(n, order, strategy):
         return Outcome(DISCHARGED, "exact-rational", f"{len(got)} columns equal the exact rational solution to 1e-9; moments exact for k < {n + order}")
     return Obligation(name, "exact", fn, func=(FD, "finite_diff_coeffs"), size_bounded=True, timeout=400,
                       sample="real output vs exact rational solution of the Vandermonde system")
+
+
+# ---------------------------------------------------------------------------------------------- part 3: history independence
+PRODUCER = "finite_diff_coeffs"
+GRID = [(n, order, st) for n in (1, 2) for order in (1, 2) for st in ("forward", "backward", "center") if not (st == "center" and order % 2)]
+
+
+def is_memoised():
+    """does the real finite_diff_coeffs carry a memoising decorator (functools.cache / lru_cache / cached ...)? read from the AST"""
+    import ast
+    tree = ast.parse(open(f"{REPO}/{FD}").read())
+    fn = next(n for n in tree.body if isinstance(n, ast.FunctionDef) and n.name == PRODUCER)
+    return any("cache" in ast.unparse(d) for d in fn.decorator_list), [ast.unparse(d) for d in fn.decorator_list]
+
+
+def stencil_state(mod):
+    """compare what the (memoised) finite_diff_coeffs returns NOW, in both call forms, with a recomputation by the undecorated body
+    (or, without __wrapped__, with the independent exact rational solution): -> list of discrepancies"""
+    import numpy as np
+    fdc = mod.finite_diff_coeffs
+    raw = getattr(fdc, "__wrapped__", None)
+    bad = []
+    for n, order, st in GRID:
+        for form, got in (("keyword", fdc(n=n, approx_order=order, strategy=st)), ("positional", fdc(n, order, st))):
+            got = np.asarray(got, dtype=float)
+            if raw is not None:
+                want = np.asarray(raw(n, order, st), dtype=float)
+                same = got.shape == want.shape and bool(np.array_equal(got, want))
+            else:
+                nodes = spec_shifts(n, order, st)
+                exact = {float(s_): float(c_) for c_, s_ in zip(solve_exact(nodes, n), nodes) if not (c_ == 0 and s_ == 0)}
+                want = np.array([[exact[k] for k in sorted(exact, key=abs)], sorted(exact, key=abs)])
+                same = got.shape == want.shape and bool(np.allclose(got[0], [exact.get(float(x), np.nan) for x in got[1]], rtol=1e-9, atol=1e-12))
+            if not same:
+                bad.append(dict(n=n, approx_order=order, strategy=st, call_form=form, returned=got.tolist(), recomputed=want.tolist()))
+    return bad
+
+
+def _tapes():
+    import pennylane as qp
+    t1 = qp.tape.QuantumScript([qp.RX(0.3, 0), qp.RY(-0.7, 1), qp.CNOT([0, 1])], [qp.expval(qp.Z(0) @ qp.Z(1))])
+    t2 = qp.tape.QuantumScript([qp.RX(0.3, 0), qp.RY(-0.7, 1), qp.CNOT([0, 1])], [qp.expval(qp.Z(0)), qp.probs(wires=[1])])
+    t3 = qp.tape.QuantumScript([qp.RX(0.4, 0)], [qp.expval(qp.Z(0))], shots=(50, 60))
+    return [("1 measurement", t1), ("2 measurements", t2), ("1 parameter, shot vector", t3)]
+
+
+def scenarios(which):
+    """generator of (description, thunk): uses of the real function `which` covering its argument combinations"""
+    import numpy as np
+    import pennylane as qp
+    dev = qp.device("default.qubit", seed=11)
+
+    def run_transform(tf, tape, with_f0, **kw):
+        def go():
+            if with_f0:
+                kw["f0"] = qp.execute([tape], dev, diff_method=None)[0]
+            tapes, fn = tf(tape, **kw)
+            return fn(qp.execute(tapes, dev, diff_method=None))
+        return go
+    if which == "finite_diff":
+        for n, order, st in GRID:
+            for label, tape in _tapes():
+                for f0 in (False, True):
+                    if f0 and tape.shots.has_partitioned_shots:
+                        continue
+                    yield (f"finite_diff(tape[{label}], h=1e-2, n={n}, approx_order={order}, strategy={st!r}, f0={'given' if f0 else None}) + post-processing",
+                           run_transform(qp.gradients.finite_diff, tape, f0, h=1e-2, n=n, approx_order=order, strategy=st))
+    elif which == "spsa_grad":
+        for n, order, st in GRID:
+            for label, tape in _tapes():
+                for k in (1, 2, 3):
+                    for f0 in (False, True):
+                        if f0 and (tape.shots.has_partitioned_shots or k != 2):
+                            continue
+                        yield (f"spsa_grad(tape[{label}], h=1e-2, n={n}, approx_order={order}, strategy={st!r}, num_directions={k}, sampler_rng=5, "
+                               f"f0={'given' if f0 else None}) + post-processing",
+                               run_transform(qp.gradients.spsa_grad, tape, f0, h=1e-2, n=n, approx_order=order, strategy=st, num_directions=k, sampler_rng=5))
+    elif which == "finite_diff_jvp":
+        def f(x, y):
+            return 2 * x * y, x ** 2 + qp.math.sum(y)
+        for _, order, st in [g for g in GRID if g[0] == 1] + [(1, 4, "center"), (1, 3, "forward")]:
+            for args, tangents in (((0.5, 1.2), (1.0, 1.0)), ((np.array([0.5, 0.3]), np.array(1.2)), (np.array([1.0, 0.5]), np.array(2.0)))):
+                yield (f"finite_diff_jvp(f, {args}, {tangents}, h=1e-4, approx_order={order}, strategy={st!r})",
+                       (lambda args=args, tangents=tangents, order=order, st=st:
+                        qp.gradients.finite_diff_jvp(f, args, tangents, h=1e-4, approx_order=order, strategy=st)))
+    else:
+        raise KeyError(which)
+
+
+def history_run(which):
+    """-> None or dict(step=..., discrepancies=[...]): run the scenarios of `which`, checking the memoised stencils after each"""
+    import warnings
+    mod = importlib.import_module(FMOD)
+    pre = stencil_state(mod)
+    if pre:
+        return dict(step="before any use (state of this process)", discrepancies=pre[:3], ran=0)
+    ran = 0
+    with warnings.catch_warnings():
+        warnings.simplefilter("ignore")
+        for desc, thunk in scenarios(which):
+            try:
+                thunk()
+            except Exception as ex:  # pylint: disable=broad-except
+                desc += f" [raised {type(ex).__name__}]"
+            ran += 1
+            bad = stencil_state(mod)
+            if bad:
+                return dict(step=desc, discrepancies=bad[:3], ran=ran)
+    return dict(step=None, ran=ran)
+
+
+HISTORY_FUNCS = {"finite_diff": (FD, "finite_diff"), "spsa_grad": ("pennylane/gradients/spsa_gradient.py", "spsa_grad"),
+                 "finite_diff_jvp": (FD, "finite_diff_jvp")}
+
+
+def history_obligation(which):
+    rel, qual = HISTORY_FUNCS[which]
+    stem = rel.rsplit("/", 1)[-1][:-3]
+
+    def fn():
+        out = history_run(which)
+        if out["step"] is not None:
+            d = out["discrepancies"][0]
+            return Outcome(REFUTED, "native-standin",
+                           f"after {out['step']}: finite_diff_coeffs(n={d['n']}, approx_order={d['approx_order']}, strategy={d['strategy']!r}) "
+                           f"[{d['call_form']} call] returns {d['returned']}, the recomputed stencil is {d['recomputed']}", witness=out,
+                           replay=dict(confirmed=True, inputs=out["step"], observed=d["returned"], expected=d["recomputed"]))
+        return Outcome(DISCHARGED, "native-standin", f"{out['ran']} uses, memoised stencils equal the recomputed ones after each", extra=dict(bounded=True))
+    return Obligation(f"{PID}/{stem}:{qual}/native history: finite_diff_coeffs unchanged by every small use", "bounded", fn, bounded=True, func=(rel, qual),
+                      timeout=600, sample="real transform + post-processing, then memoised vs recomputed stencil for n <= 2, approx_order <= 2")
+
+
+def repeat_obligation():
+    def fn():
+        mod = importlib.import_module(FMOD)
+        for rnd in range(3):
+            bad = stencil_state(mod)
+            if bad:
+                d = bad[0]
+                return Outcome(REFUTED, "native-standin", f"call round {rnd + 1}: finite_diff_coeffs({d['n']}, {d['approx_order']}, {d['strategy']!r}) "
+                               f"[{d['call_form']}] returns {d['returned']}, recomputed {d['recomputed']}", witness=d,
+                               replay=dict(confirmed=True, inputs=dict(n=d["n"], approx_order=d["approx_order"], strategy=d["strategy"], round=rnd + 1),
+                                           observed=d["returned"], expected=d["recomputed"]))
+        return Outcome(DISCHARGED, "native-standin", "3 rounds x both call forms: equal to the recomputed stencil", extra=dict(bounded=True))
+    return Obligation(f"{PID}/finite_difference:finite_diff_coeffs/native history: repeated calls return the recomputed stencil", "bounded", fn,
+                      bounded=True, func=(FD, PRODUCER), timeout=300, sample="memoised vs recomputed, n <= 2, approx_order <= 2, keyword / positional")
+
+
+def frame_obligations(plan):
+    """one obligation per write site of every in-repo caller of finite_diff_coeffs + one per caller + the enumeration itself"""
+    from vf.frame.npalias import enumerate_callers, protected_result_analysis
+    memo, decos = is_memoised()
+    callers, other = enumerate_callers(REPO, PRODUCER)
+    notes = dict(memoised=memo, decorators=decos, callers=[f"{r}:{q} ({c} call site{'s' * (c != 1)})" for r, q, c in callers], unclassified=[], assumed=[])
+
+    def enum_fn():
+        if other:
+            return Outcome(UNDECIDED, "frame", f"uses of finite_diff_coeffs the frame analysis does not cover: {other[:5]}")
+        if not callers:
+            return Outcome(DISCHARGED, "frame", "no in-repo caller")
+        return Outcome(DISCHARGED, "frame", f"{len(callers)} calling functions: {notes['callers']}; memoised={memo} {decos}")
+    plan.add(Obligation(f"{PID}/finite_difference:finite_diff_coeffs/frame: in-repo callers enumerated", "frame", enum_fn, func=(FD, PRODUCER)))
+    summaries = {}
+    for rel, qual, _ in callers:
+        stem = rel.rsplit("/", 1)[-1][:-3]
+        try:
+            summ, sites = protected_result_analysis(REPO, rel, qual, PRODUCER, summaries)
+        except Exception as ex:  # pylint: disable=broad-except
+            plan.add(Obligation(f"{PID}/{stem}:{qual}/frame-analysis", "frame",
+                                (lambda ex=ex: Outcome(UNDECIDED, "frame", f"analysis failed: {type(ex).__name__}: {ex}")), func=(rel, qual)))
+            continue
+        plan.fn_under_contract(rel, qual)
+        notes["assumed"] += [f"{rel}:{qual} L{ln} {nm}" for nm, ln in summ.assumed]
+        n_uncl = 0
+        for st, v in sites:
+            if v == "unclassified":
+                n_uncl += 1
+                notes["unclassified"].append(f"{rel}:{st.func} L{st.lineno} {st.kind} {st.target}")
+                continue
+
+            def fn(st=st, v=v, qual=qual):
+                if v == "ok":
+                    return Outcome(DISCHARGED, "frame", f"L{st.lineno}: target may be {sorted(st.value.ids) or 'a new object'}: not the memoised array")
+                if not memo:
+                    return Outcome(DISCHARGED, "frame", f"L{st.lineno}: writes the result of finite_diff_coeffs, which is not memoised ({decos}): "
+                                   "every call returns a new array")
+                detail = (f"line {st.lineno}: {st.kind} writes `{st.target}`, which may be (a view of) the array returned by the memoised "
+                          f"finite_diff_coeffs {sorted(st.value.hits(90))}: every later call returns the modified stencil")
+                rp = dict(confirmed=None, note="static frame violation; no native scenario for this caller")
+                top = qual.split(".")[0]
+                if top in HISTORY_FUNCS:
+                    try:
+                        out = history_run(top)
+                        if out["step"] is not None:
+                            d = out["discrepancies"][0]
+                            rp = dict(confirmed=True, inputs=out["step"], observed=d["returned"], expected=d["recomputed"],
+                                      then=f"finite_diff_coeffs(n={d['n']}, approx_order={d['approx_order']}, strategy={d['strategy']!r}) [{d['call_form']}]")
+                        else:
+                            rp = dict(confirmed=None, note=f"static frame violation; the {out['ran']} native uses did not expose it")
+                    except Exception as ex:  # pylint: disable=broad-except
+                        rp = dict(confirmed=None, note=f"static frame violation; native run failed: {type(ex).__name__}: {str(ex)[:100]}")
+                return Outcome(REFUTED, "frame", detail, witness=dict(line=st.lineno, target=st.target, kind=st.kind), replay=rp)
+            plan.add(Obligation(f"{PID}/{stem}:{st.func}/frame write#{st.ordinal} {st.kind} on `{st.target}`", "frame", fn, func=(rel, qual), timeout=600,
+                                sample=f"write site L{st.lineno}: {st.kind} on {st.target}"))
+        plan.add(Obligation(f"{PID}/{stem}:{qual}/frame: analysed ({len(sites)} write sites)", "frame",
+                            (lambda summ=summ, sites=sites, n_uncl=n_uncl: Outcome(
+                                DISCHARGED, "frame", f"{len(sites)} write sites ({n_uncl} unclassified), {len(summ.assumed)} assumed callees handed the "
+                                f"array, {len(summ.unsupported)} unsupported nodes")), func=(rel, qual)))
+    plan.notes["frame"] = notes
+    return notes
 
 
 def build(tier, seed):
@@ -283,4 +502,19 @@ def build(tier, seed):
                 if strategy == "center" and order % 2:
                     continue
                 plan.add(exact_obligation(n, order, strategy))
+    # ---- part 3
+    notes = frame_obligations(plan)
+    plan.add(repeat_obligation())
+    for which in HISTORY_FUNCS:
+        plan.add(history_obligation(which))
+    plan.trusted_base.append("vf/frame/analysis.py + vf/frame/npalias.py (may-alias abstract domain, syntactic numpy write sites, loop fixpoint)")
+    plan.assumptions += ["part 3: numpy library functions other than the listed writers (out=, copyto, put, place, putmask, fill_diagonal, put_along_axis, "
+                         "ufunc.at, in-place methods) do not write their array arguments; NP_FRESH functions (arithmetic, stack, tensordot, copy, ...) "
+                         "return new arrays", "part 3: nested functions see the bindings at the point of their definition"]
+    plan.assumed_contracts.append(f"part 3: callees without a body in reach that are handed the array are assumed not to write it: {notes['assumed'] or 'none on this tree'}")
+    plan.size_bounds.append("part 3 native history stand-ins (bounded, never counted as proof): n <= 2, approx_order <= 2 (+ orders 3, 4 for finite_diff_jvp), "
+                            "3 tapes, num_directions 1..3, numpy interface")
+    plan.unverified += [f"part 3: {len(notes['unclassified'])} write sites through unclassifiable values: {notes['unclassified'] or 'none'}",
+                        "part 3: writes by callers OUTSIDE /repo/pennylane (user code): finite_diff_coeffs returns a WRITEABLE shared array; "
+                        "making it read-only would need a change of /repo", "part 3: other interfaces (autograd / jax / torch results in post-processing)"]
     return plan
